@@ -16,6 +16,10 @@ pub struct Case {
     pub q: DpQuery,
     pub eps: f64,
     pub delta: f64,
+    /// multiplicity share giving a fractional multiplicity estimate (size * share); the comparison is made only when no
+    /// unit owns more rows than the estimate rounded up
+    #[serde(default)]
+    pub share: Option<f64>,
 }
 
 pub fn strategy() -> BoxedStrategy<Case> {
@@ -24,8 +28,12 @@ pub fn strategy() -> BoxedStrategy<Case> {
         query_strategy(vec![Group::None, Group::None, Group::Public, Group::Public, Group::Public], true, true),
         prop::sample::select(vec![0.1, 1.0, 5.0]),
         prop::sample::select(vec![1e-6, 1e-3]),
+        proptest::option::weighted(0.25, prop::sample::select(vec![0.1, 0.15, 0.2, 0.3, 0.45])),
     )
-        .prop_map(|(mut schema, mut q, eps, delta)| {
+        .prop_map(|(mut schema, mut q, eps, delta, share)| {
+            if share.is_some() {
+                q.from = From_::Orders;
+            }
             // a join of two protected tables on a condition unrelated to the unit is, by design, restricted to rows of
             // the same unit by the tracking: its result is not comparable with the original query's
             if q.from == From_::OrdersFullJoinUsersOnKind {
@@ -37,7 +45,7 @@ pub fn strategy() -> BoxedStrategy<Case> {
             if schema.pu_variant % 4 == 2 {
                 schema.pu_variant = 0;
             }
-            Case { schema, q, eps, delta }
+            Case { schema, q, eps, delta, share }
         })
         .boxed()
 }
@@ -67,7 +75,23 @@ pub fn check(case: &Case, st: &mut Stats) -> Vec<Fail> {
         }
     };
     // multiplicity large enough that no unit can exceed what the clipping bound allows
-    let dp = DpSpec { epsilon: case.eps, delta: case.delta, tau_share: 0.5, max_mult: 1000.0, max_mult_share: 1.0, max_groups: 50 };
+    let mut dp = DpSpec { epsilon: case.eps, delta: case.delta, tau_share: 0.5, max_mult: 1000.0, max_mult_share: 1.0, max_groups: 50 };
+    if let Some(sh) = case.share {
+        // fractional estimate: clipping stays inactive as long as every unit owns at most ceil(size * share) rows
+        dp.max_mult = 100.0;
+        dp.max_mult_share = sh;
+        let rows = db.rows();
+        let mut per_unit: std::collections::BTreeMap<String, usize> = Default::default();
+        for r in &rows[1] {
+            *per_unit.entry(r[1].to_string()).or_insert(0) += 1;
+        }
+        let allowed = (case.schema.n_orders as f64 * sh).ceil().max(1.0) as usize;
+        if per_unit.values().any(|n| *n > allowed) {
+            st.class("fractional_multiplicity:unit_exceeds_estimate");
+            return fails;
+        }
+        st.class("fractional_multiplicity:compared");
+    }
     let rels = db.relations();
     let pu = case.schema.privacy_unit();
     let rewritten = safe(|| rel.rewrite_with_differential_privacy(&rels, None, pu, dp.params()));
@@ -201,15 +225,17 @@ pub fn check(case: &Case, st: &mut Stats) -> Vec<Fail> {
                 let sign = if single { "range_single_value" } else if neg { "range_has_negative" } else { "range_nonnegative" };
                 // under the outer join, which side the aggregated column comes from
                 let side = if case.q.from == From_::UsersLeftJoinOrders {
-                    if *ak == Ak::CountStar {
-                        "|outer_join:star"
+                    let s = if *ak == Ak::CountStar {
+                        "star"
                     } else if agg.arg % 4 == 3 {
-                        "|outer_join:preserved_side_column"
+                        "preserved_side_column"
                     } else {
-                        "|outer_join:nullable_side_column"
-                    }
+                        "nullable_side_column"
+                    };
+                    // which tables carry the unit decides how the tracked join treats unmatched rows
+                    format!("|outer_join:{s}|{}|pu{}", if case.schema.id_not_declared_unique { "unit_column_not_declared_unique" } else { "unit_column_declared_unique" }, case.schema.pu_variant % 4)
                 } else {
-                    ""
+                    String::new()
                 };
                 fails.push(Fail::new(
                     format!("C09|aggregate_differs|{tag}|{null_tag}|{sign}|{group_tag}{side}"),
